@@ -241,6 +241,39 @@ def run_histories(ctx, hist, init, variant, stats, workers, env=None, model_cach
             histories=len(hist), variant=variant)
 
 
+def posguard_searches(ctx, quick):
+    import uci
+    bdir = vlib.cxx_build("plain", ("texel", "mknet"))
+    vlib.net_file(bdir, "material", 1)
+    fens = [f for f in chessgen.games(ctx, 20 if quick else 400, 120) if 12 <= sum(c.isalpha() for c in f.split()[0]) <= 30]
+    ctx.rng.shuffle(fens)
+    fens = fens[:150 if quick else 6000]
+    nw = 6 if quick else 12
+
+    def job(chunk):
+        e = uci.Engine("plain", "material", 1, env={"TEXEL_VERIF_POSGUARD": "1"})
+        hits = []
+        try:
+            e.handshake()
+            for f in chunk:
+                go = f"go nodes {60000 if quick else 150000}"
+                out = e.go(f"position fen {f}", go, timeout=300)
+                bad = [l for l in out if "verif posguard" in l]
+                if bad: hits.append((f, go, bad[0]))
+            e.quit()
+        except (uci.EngineDied, TimeoutError) as ex:
+            hits.append((chunk[0] if chunk else None, "engine failure", str(ex)[:200]))
+        finally:
+            e.kill()
+        return hits
+    with cf.ThreadPoolExecutor(nw) as ex:
+        res = [h for hs in ex.map(job, [fens[i::nw] for i in range(nw)]) for h in hs]
+    ctx.count(len(fens))
+    ctx.tie("search-restores-position", kind="real searches with the TEXEL_VERIF_POSGUARD hook: every negaScout / quiesce node compares the position on exit with the one it found", searches=len(fens))
+    for f, go, line in res[:3]:
+        ctx.violation(f"a search node did not restore the position (`{go}` on `{f}`): {line[:200]}", {"kind": "property-predicate", "input": [f"position fen {f}", go], "report": line})
+
+
 def run(ctx):
     quick = ctx.tier == "quick"
     bdir = vlib.cxx_build("plain", ("vharness", "mknet"))
@@ -316,6 +349,9 @@ def run(ctx):
         k = next(i for i, (a, b) in enumerate(zip(ra[1], rb[1])) if a != b)
         ctx.violation(f"material score differs between plain and sanitizer build on `{probes[k]}`: {rb[1][k]} vs {ra[1][k]}",
                       {"kind": "property-predicate", "input": [probes[k]]})
+    # the make / unmake / null-move sequences the real search performs: every search node must leave the position as it
+    # found it (TEXEL_VERIF_POSGUARD hook in negaScout and quiesce); any report is a failing input
+    posguard_searches(ctx, quick)
     # generator coverage: the quantifier of the property must actually be exercised
     need = {"takeback": 1, "null": 1, "copy": 1, "captures": 1, "ep_captures": 1, "promotions": 1, "castlings": 1, "histories_ge6_queens": 1,
             "histories_9_queens": 1}
